@@ -41,9 +41,11 @@ TEXTS = {
                 "nodes, children under two message types and add_child, some also held from outside, parents ending "
                 "by every cause).",
         "design_ref": "DESIGN.md §5 C16",
-        "note": "Partial: exactly-once delivery to live children and graceful stop of released children by quiescence "
-                "are trace-checked (monC16q, monC05q on projections). Trusted: Lean kernel + axioms; Model/Sys.lean "
-                "validated by multi-actor trace acceptance.",
+        "note": "Exactly-once is theorem C16q_holds (monC16q): at its quiescent point every actor that was never stopped, "
+                "restarted, failed or stream-ended has taken every broadcast up exactly once per registration. "
+                "Graceful stop of released children is C05q_holds on the child's projection (sys_actor_run), also "
+                "checked on every actor's projection of every real trace. Trusted: Lean kernel + axioms; "
+                "Model/Sys.lean validated by multi-actor trace acceptance.",
         "technique": "Lean 4 proof (system invariant + projection theorem lifting all single-actor theorems + mailbox counting) + checked multi-actor trace correspondence",
     },
     "C01": {
